@@ -266,9 +266,15 @@ def _mutators(f, live, r, assumed=None):
                 continue
             if len(n.args) == 1 and isinstance(n.args[0], ast.Name) and n.args[0].id in live and _helper_copies_each(r.m, f, n):
                 continue  # a helper that only snapshots the memos
-            names = [a.id for a in n.args if isinstance(a, ast.Name)] + [
-                k.value.id for k in n.keywords if isinstance(k.value, ast.Name)
-            ]
+            def _nm(a):
+                # a live memo named directly, or as a slot of the live tuple (`memos[2]`)
+                if isinstance(a, ast.Name):
+                    return a.id
+                if isinstance(a, ast.Subscript) and isinstance(a.value, ast.Name) and isinstance(a.slice, ast.Constant) and isinstance(a.slice.value, int):
+                    return a.value.id
+                return None
+
+            names = [_nm(a) for a in n.args if _nm(a)] + [_nm(k.value) for k in n.keywords if _nm(k.value)]
             if not any(x in live for x in names) and _runs_leaf_checks(r, f, n):
                 # a local predicate / internal function that runs leaf type checks (typeguard -> isinstance ->
                 # array __instancecheck__): it binds axes in the current context although no memo is handed to it
@@ -289,10 +295,10 @@ def _mutators(f, live, r, assumed=None):
                     off = 1 if (getattr(t, "is_ctor", False) or (callee.cls is not None and ps and isinstance(n.func, ast.Attribute) and not _static(callee))) else 0
                     verdicts = []
                     for i, a in enumerate(n.args):
-                        if isinstance(a, ast.Name) and a.id in live:
+                        if _nm(a) in live:
                             verdicts.append(param_write_summary(r.m, callee, ps[i + off]) if i + off < len(ps) else "unknown")
                     for k in n.keywords:
-                        if isinstance(k.value, ast.Name) and k.value.id in live:
+                        if _nm(k.value) in live:
                             verdicts.append(param_write_summary(r.m, callee, k.arg) if k.arg in ps else "unknown")
                     if "writes" in verdicts:
                         out.append(n)
@@ -568,6 +574,16 @@ def cm_restore_summary(m, r, f, expr):
     return None
 
 
+def _flag_link(v, resvars):
+    """`flag = check == ""` / `flag = not check` / `flag = ok`: (result variable, verdict that makes the flag true), else None"""
+    if isinstance(v, ast.Constant):
+        return None
+    try:
+        return _result_fact(v, True, resvars)
+    except AnalysisError:
+        return None
+
+
 def _rollback_typestate(m, r, f, g, muts, restore_calls):
     """clean -> dirty (a call that writes the live memos) -> restored (set_shape_memo(<snapshots>)).
     Returns the findings as (args, kwargs) for ctx.bad, the number of product states, and which
@@ -600,7 +616,8 @@ def _rollback_typestate(m, r, f, g, muts, restore_calls):
             for t in n.targets:
                 for x in ast.walk(t):
                     if isinstance(x, ast.Name):
-                        ok_ = len(n.targets) == 1 and isinstance(t, ast.Name) and isinstance(n.value, ast.Constant) and isinstance(n.value.value, bool)
+                        ok_ = len(n.targets) == 1 and isinstance(t, ast.Name) and ((isinstance(n.value, ast.Constant) and isinstance(n.value.value, bool))
+                                                                                       or _flag_link(n.value, resvars) is not None)
                         flagvars[x.id] = flagvars.get(x.id, True) and ok_
         elif isinstance(n, (ast.AugAssign, ast.AnnAssign, ast.For, ast.With, ast.NamedExpr, ast.comprehension, ast.ExceptHandler)):
             for x in ast.walk(n.target if hasattr(n, "target") else n):
@@ -694,6 +711,15 @@ def _rollback_typestate(m, r, f, g, muts, restore_calls):
                     if isinstance(x, ast.Name) and x.id in fd:
                         del fd[x.id]
             v = node.ast.value
+            lk = _flag_link(v, resvars)
+            if lk is not None:
+                for t in node.ast.targets:
+                    if isinstance(t, ast.Name) and t.id in flagvars:
+                        var_, verdict_ = lk
+                        if fd.get(var_) in ("accept", "reject"):
+                            fd[t.id] = "T" if fd[var_] == verdict_ else "F"
+                        else:
+                            fd[t.id] = f"link:{var_}:{verdict_}"  # the flag is true exactly when the check's result is `verdict_`
             if isinstance(v, ast.Constant):
                 for t in node.ast.targets:
                     if isinstance(t, ast.Name) and t.id in flagvars:
@@ -718,7 +744,15 @@ def _rollback_typestate(m, r, f, g, muts, restore_calls):
             while isinstance(t_, ast.UnaryOp) and isinstance(t_.op, ast.Not):
                 neg_ = not neg_
                 t_ = t_.operand
-            if isinstance(t_, ast.Name) and t_.id in flagvars and t_.id in fd:
+            if isinstance(t_, ast.Name) and t_.id in flagvars and str(fd.get(t_.id, "")).startswith("link:"):
+                _, var_, verdict_ = fd[t_.id].split(":")
+                flag_true = (kind == "t") != neg_
+                derived = verdict_ if flag_true else ("reject" if verdict_ == "accept" else "accept")
+                if fd.get(var_) in ("accept", "reject") and fd[var_] != derived:
+                    return ()
+                fd[var_] = derived
+                fd[t_.id] = "T" if flag_true else "F"
+            elif isinstance(t_, ast.Name) and t_.id in flagvars and t_.id in fd:
                 if ((fd[t_.id] == "T") != neg_) != (kind == "t"):
                     return ()  # the flag is known on this path: the other side is infeasible
             fact = _result_fact(node.ast, kind == "t", resvars)
@@ -1044,6 +1078,20 @@ def _check_starred_snapshot(ctx, m, f, site, rc, bname, g, dom, mut_nodes):
     if isinstance(val, ast.Name) and val.id == site.tuple_var:
         ctx.bad("C04.2", f, stn, f"`{bname}` is the live memo tuple itself, not a snapshot: the rollback restores nothing")
         return
+    if isinstance(val, ast.Tuple) and len(val.elts) == 4:
+        for i, e in enumerate(val.elts):
+            if isinstance(e, ast.Name) and e.id in [x for x in site.live if x]:
+                ctx.bad("C04.2", f, stn, f"slot {i} of the snapshot tuple `{bname}` is the live memo `{e.id}` itself, not a copy: the rollback restores nothing for it")
+                return
+    if site.tuple_var is not None:
+        inner = val.args[0] if isinstance(val, ast.Call) and norm(val.func) in ("tuple", "list") and len(val.args) == 1 else val
+        shallow = (isinstance(inner, ast.Name) and inner.id == site.tuple_var) or (
+            isinstance(inner, (ast.ListComp, ast.GeneratorExp)) and len(inner.generators) == 1 and not inner.generators[0].ifs
+            and isinstance(inner.generators[0].iter, ast.Name) and inner.generators[0].iter.id == site.tuple_var
+            and isinstance(inner.generators[0].target, ast.Name) and isinstance(inner.elt, ast.Name) and inner.elt.id == inner.generators[0].target.id)
+        if shallow:
+            ctx.bad("C04.2", f, stn, f"the snapshot `{bname} = {short(val, 50)}` holds the live memos themselves (a new tuple of the same dicts), not copies: the rollback restores nothing")
+            return
     ok = site.tuple_var is not None and _copies_each_in_order(val, site.tuple_var)
     if not ok and site.tuple_var is not None and isinstance(val, ast.Call) and [norm(a) for a in val.args] == [site.tuple_var]:
         ok = _helper_copies_each(m, f, val)
